@@ -41,12 +41,40 @@ func (e *Engine) verifyFunc(fn *ssa.Function, fc *FuncContract) (vcs []*VC, err 
 		cases = next
 	}
 	for _, c := range cases {
-		vc := e.newVC(base + c.name)
-		vc.Contract = fc
-		if err := e.runVC(vc, fn, fc, c.vals); err != nil {
-			return nil, fmt.Errorf("%s: %v", vc.Name, err)
+		// opaque predicates met during execution are decided by further splitting
+		type dcase struct {
+			dec  map[string]bool
+			name string
 		}
-		vcs = append(vcs, vc)
+		queue := []dcase{{map[string]bool{}, ""}}
+		for len(queue) > 0 {
+			dc := queue[0]
+			queue = queue[1:]
+			vc := e.newVC(base + c.name + dc.name)
+			vc.Contract = fc
+			vc.decisions = dc.dec
+			err := e.runVC(vc, fn, fc, c.vals)
+			if nd, ok := err.(needDecision); ok {
+				if len(dc.dec) >= 6 {
+					return nil, fmt.Errorf("%s: too many opaque dispatch decisions", vc.Name)
+				}
+				for _, b := range []bool{true, false} {
+					m := map[string]bool{}
+					for k, v := range dc.dec {
+						m[k] = v
+					}
+					m[nd.key] = b
+					short := nd.key[strings.LastIndex(nd.key, ".")+1:]
+					queue = append(queue, dcase{m, fmt.Sprintf("%s#%s=%v", dc.name, short, b)})
+				}
+				delete(e.used, vc)
+				continue
+			}
+			if err != nil {
+				return nil, fmt.Errorf("%s: %v", vc.Name, err)
+			}
+			vcs = append(vcs, vc)
+		}
 	}
 	return vcs, nil
 }
@@ -58,6 +86,8 @@ func (e *Engine) runVC(vc *VC, fn *ssa.Function, fc *FuncContract, splitVals []i
 			case unsupportedErr:
 				err = x
 			case evalErr:
+				err = x
+			case needDecision:
 				err = x
 			default:
 				panic(r)
